@@ -1,10 +1,15 @@
 #!/bin/bash
-# Offline setup: build the harness once (warms the Go build cache). Everything
-# is rebuilt from /repo's working tree by each check anyway.
-set -eu
-cd "$(dirname "$0")/.."
+# Offline setup: builds the harness once in every flavour the checks use (plain, instrumented,
+# race-instrumented) so that the Go build cache is warm. Nothing built here is used by the
+# checks: each check rebuilds from /repo's current working tree into its own scratch directory.
+set -u
+cd "$(dirname "$0")/.." || exit 2
+VERIF="$(pwd)"; REPO=/repo
 export GOFLAGS=-mod=mod GOPROXY=off GOTOOLCHAIN=auto
 unset GOSUMDB
 mkdir -p bin evidence replays
-go build -tags verif -o bin/vsim ./cmd/vsim
-echo "setup ok"
+go build -tags verif -o bin/vsim ./cmd/vsim || exit 2
+SCRATCH="$(mktemp -d "${TMPDIR:-/tmp}/verif-setup-XXXXXX")" || exit 2
+trap 'rm -rf "$SCRATCH"' EXIT
+. scripts/build.sh "$SCRATCH" 1 || exit 2
+echo "setup ok (mode=$MODE)"
